@@ -215,9 +215,38 @@ def fam_ladder(sizes=(1, 2, 4, 8, 16, 32, 48)):
     return out
 
 
+def fam_annlists():
+    """SEVERAL annotation types in one program that print alike (String() omits the modes of non-shift nodes) and differ
+    in well-formedness: a well-moded type T earlier and an ill-moded look-alike T' later (and the other way round), as
+    two parameters, as provider type and parameter, in two functions, as two assumed names, as two process types.  Every
+    annotation must be judged on its own, wherever and however often a look-alike occurs."""
+    out = []
+    shapes = [("tensor", "1 * A"), ("lolli", "A -* 1"), ("plus", "+{l : A}"), ("with", "&{l : A}"), ("name", "A"),
+              ("pair", "A * A")]
+    for m1 in MODES:
+        for m2 in MODES:
+            if m1 == m2:
+                continue
+            for sn, sh in shapes:
+                good = sh if sn != "name" else "A"
+                bad = "%s (%s)" % (m2, sh) if sn != "name" else "%s A" % m2
+                tag = "%s:%s-%s" % (sn, m1, m2)
+                ty = "type A = %s 1\n" % m1
+                for order, (t1, t2) in (("good-first", (good, bad)), ("bad-first", (bad, good))):
+                    out.append(("decl:annlist:params:%s:%s" % (tag, order), "declshape:annlist",
+                                ty + "let f(x : %s, y : %s) : %s 1 = drop x; drop y; close self" % (t1, t2, m1)))
+                    out.append(("decl:annlist:twofuns:%s:%s" % (tag, order), "declshape:annlist",
+                                ty + "let f(x : %s) : rep 1 = drop x; close self\nlet g(y : %s) : rep 1 = drop y; close self" % (t1, t2)))
+                    out.append(("decl:annlist:assumed:%s:%s" % (tag, order), "declshape:annlist",
+                                ty + "assuming x : %s, y : %s\nprc[p] : rep 1 = drop x; drop y; close self" % (t1, t2)))
+                out.append(("decl:annlist:control:%s" % tag, "declshape:annlist",
+                            ty + "let f(x : %s, y : %s) : %s 1 = drop x; drop y; close self" % (good, good, m1)))
+    return out
+
+
 def stream():
     seen = set()
-    for fam in (fam_alias, fam_cycle, fam_dupdecl, fam_order, fam_modes, fam_depcycle, fam_ladder):
+    for fam in (fam_alias, fam_cycle, fam_dupdecl, fam_order, fam_modes, fam_depcycle, fam_ladder, fam_annlists):
         for i, k, t in fam():
             if t not in seen:
                 seen.add(t)
